@@ -12,7 +12,10 @@
 (* A configuration is                                                      *)
 (*   [auths       : sequence of [key, username, password, auth,            *)
 (*                               identitytoken, registrytoken] (keys       *)
-(*                  pairwise different: a JSON object),                    *)
+(*                  pairwise different: a JSON object; an entry may hold   *)
+(*                  nothing at all - {} - or only fields that carry no     *)
+(*                  credentials, such as email: it still is an entry, and  *)
+(*                  the collision rule does not look at entry contents),   *)
 (*    credsStore  : helper name,                                           *)
 (*    credHelpers : sequence of [host, helper] (hosts pairwise different), *)
 (*    helpers     : helper name -> [kind, user, secret]  -- what running   *)
